@@ -44,6 +44,13 @@ func execWith(t *testing.T, prop string, nt ntRule, run func(*testing.T, Case) O
 		if c.Cfg.Threads > 1 {
 			res.Classes = append(res.Classes, fmt.Sprintf("threads-%d", c.Cfg.Threads))
 		}
+		frag := map[string]bool{}
+		for _, op := range c.Ops {
+			if op.Split > 1 && c.Cfg.Threads > 0 && !frag[op.K] {
+				frag[op.K] = true
+				res.Classes = append(res.Classes, "arrival-as-ndnlp-fragments:"+op.K)
+			}
+		}
 		var cl []string
 		res.NonTrivial, cl = nt(out.Model.St)
 		res.Classes = append(res.Classes, cl...)
@@ -75,6 +82,7 @@ func classes(s Stats) []string {
 	add(s.Expired > 0, "pit-expiry")
 	add(s.Satisfied > 0, "satisfied")
 	add(s.HintUsed > 0, "forwarding-hint")
+	add(s.ReusedSatisfied > 0, "interest-for-entry-satisfied-moments-ago")
 	add(s.NextHopUsed > 0, "next-hop-face-id")
 	add(s.LocalhostNonLocalCandidate > 0, "localhost-nonlocal-candidate")
 	add(s.LocalhostLocalExchange > 0, "localhost-local-exchange")
